@@ -349,6 +349,21 @@ def eqCWs : List WAcc → List WAcc → Bool
   | a :: r, b :: s => eqCW a b && eqCWs r s
   | _, _ => false
 
+/-- the window `x[acc]` of a formal `x` that is itself the window `y[w]`, against the window
+    `y[acc']` the caller's block takes -/
+def matchWinWin (θ : Subst) : List WAcc → List WAcc → List WAcc → Bool
+  | [], [], [] => true
+  | .point p :: ws, as, .point q :: bs => eqC p q && matchWinWin θ ws as bs
+  | .interval lo _ :: ws, .point e :: as, .point q :: bs =>
+      (match substC θ e with
+       | some e' => eqC (.binop .add lo e') q
+       | none => false) && matchWinWin θ ws as bs
+  | .interval lo _ :: ws, .interval a b :: as, .interval a' b' :: bs =>
+      (match substC θ a, substC θ b with
+       | some a2, some b2 => eqC (.binop .add lo a2) a' && eqC (.binop .add lo b2) b'
+       | _, _ => false) && matchWinWin θ ws as bs
+  | _, _, _ => false
+
 /-- expressions in view position (right-hand side of a window statement, numeric call argument) -/
 def matchV (θ : Subst) : Expr → Expr → Bool
   | .read x [], .read x' [] => match lookupSym x θ with
@@ -360,6 +375,7 @@ def matchV (θ : Subst) : Expr → Expr → Bool
   | .read x (i :: is), .read x' (j :: js) => matchAcc θ x (i :: is) x' (j :: js)
   | .win x acc, .win x' acc' => match lookupSym x θ with
       | some (.buf y none) => y == x' && matchWs θ acc acc'
+      | some (.buf y (some w)) => y == x' && matchWinWin θ w acc acc'
       | _ => false
   | _, _ => false
 
